@@ -25,7 +25,7 @@ theorem gate_completed_ok (s : Sys) (t : Tid) (i d : IId) (rest) (ht : t < s.thr
       (if (s.ps (s.nameOf d)).exit = 0 then Pc.depNext rest else Pc.procSkipped) := by
   unfold armWaitDone
   by_cases h : (s.ps (s.nameOf d)).exit = 0
-  · simp [h, thr_setPc_note_self _ _ _ _ ht]
+  · simp [h, thr_setPc_notePassed_self _ _ _ _ _ _ ht]
   · simp only [h, true_and, ne_eq, not_false_eq_true, ↓reduceIte, doSkip]
     rw [thr_setPc_self]
     simpa [onProcessEnd, setState] using ht
@@ -33,7 +33,7 @@ theorem gate_completed_ok (s : Sys) (t : Tid) (i d : IId) (rest) (ht : t < s.thr
 /-- `process_completed`: any exit code lets the dependent proceed. -/
 theorem gate_completed (s : Sys) (t : Tid) (i d : IId) (rest) (ht : t < s.threads.length) :
     ((armWaitDone s t i d false rest).thr t).pc = Pc.depNext rest := by
-  simp [armWaitDone, thr_setPc_note_self _ _ _ _ ht]
+  simp [armWaitDone, thr_setPc_notePassed_self _ _ _ _ _ _ ht]
 
 /-- `process_healthy`: proceeds iff the dependency is reported Ready when the waiter wakes. -/
 theorem gate_healthy (s : Sys) (t : Tid) (i d : IId) (rest) (ht : t < s.threads.length) :
@@ -41,7 +41,7 @@ theorem gate_healthy (s : Sys) (t : Tid) (i d : IId) (rest) (ht : t < s.threads.
       (if (s.ps (s.nameOf d)).health = .ready then Pc.depNext rest else Pc.procSkipped) := by
   unfold armWaitReady
   by_cases h : (s.ps (s.nameOf d)).health = .ready
-  · simp [h, thr_setPc_note_self _ _ _ _ ht]
+  · simp [h, thr_setPc_notePassed_self _ _ _ _ _ _ ht]
   · simp only [h, ↓reduceIte, doSkip]
     rw [thr_setPc_self]
     simpa [onProcessEnd, setState] using ht
@@ -52,7 +52,7 @@ theorem gate_logready (s : Sys) (t : Tid) (i d : IId) (rest) (ht : t < s.threads
       (if (s.inst d).logReady = .ok then Pc.depNext rest else Pc.procSkipped) := by
   unfold armWaitLogReady
   by_cases h : (s.inst d).logReady = .ok
-  · simp [h, thr_setPc_note_self _ _ _ _ ht]
+  · simp [h, thr_setPc_notePassed_self _ _ _ _ _ _ ht]
   · simp only [h, ↓reduceIte, doSkip]
     rw [thr_setPc_self]
     simpa [onProcessEnd, setState] using ht
